@@ -5,6 +5,7 @@ package slip
 import (
 	"encoding/json"
 	"fmt"
+	"math"
 	"math/big"
 	"strconv"
 	"time"
@@ -85,7 +86,7 @@ func SimpleObject(val any) (obj Object) {
 		obj = Fixnum(tv)
 
 	case uint:
-		obj = Fixnum(tv)
+		obj = SimpleObject(uint64(tv))
 	case uint8:
 		obj = Octet(tv)
 	case uint16:
@@ -93,7 +94,11 @@ func SimpleObject(val any) (obj Object) {
 	case uint32:
 		obj = Fixnum(tv)
 	case uint64:
-		obj = Fixnum(tv)
+		if tv <= math.MaxInt64 {
+			obj = Fixnum(tv)
+		} else {
+			obj = (*Bignum)(new(big.Int).SetUint64(tv))
+		}
 
 	case float32:
 		obj = SingleFloat(tv)
